@@ -189,3 +189,173 @@ Example C10_example : forall premask,
   wf_ecs (mkEcs 1 24 9 (first_v4 + 167838208)).
 Proof. exact ecs_example. Qed.
 Print Assumptions C10_example.
+
+(* ==================================================================================
+   C10 x C03: the hypothesis [gl = longest-prefix match] of C10_scope_truthful /
+   C10_fallback_to_resolver / C10_always_replies discharged by the C03 driver theorems
+   (Proofs/LinkEcsLpm.v, Proofs/LinkRdbDb.v, Proofs/LinkRdbModel.v).
+   ================================================================================== *)
+From DnsV Require Import Model.Compile Proofs.Batch Proofs.CompilePipe.
+From DnsV Require Import Proofs.Location Proofs.Rearranger Proofs.LinkEcsLpm Proofs.LinkRdbDb Proofs.LinkRdbModel.
+
+(* ---- CDB backend, both prefix-set modes: [gl] is cdb_get_location on the database
+   compiled from the data file f (C03_cdb_is_lpm).  No hypothesis about the driver is
+   left; the guards are C03's on the data file: map kinds M / 8, addresses below 2^128,
+   the subnet set of every map well-formed (wf_subnets, trivially true for a map
+   without subnets). *)
+Theorem C10_scope_truthful_cdb : forall sep f db fm8 fmM,
+  wf_kinds f = true -> wf_addrs f = true -> (forall m, wf_subnets (nets_of f m)) -> cdb_db f = Some db ->
+  forall ev q r e mo8 moM rip,
+  fm8 = Ok mo8 -> fmM = Ok moM -> q_rip q = Some rip -> rip < two128 ->
+  badvers q = false -> no_backend_error ev ->
+  query_ecs q = Some e -> wf_ecs e ->
+  serve fm8 fmM (cdb_get_location sep db) ev q = Reply r ->
+  exists e', reply_ecs r = Some e' /\
+    e_scope e' = expected_scope (nets_of f) (map_of mo8) e /\
+    (e_fam e = 1 -> e_scope e' <= 32) /\ (e_fam e = 2 -> e_scope e' <= 128).
+Proof. exact scope_truthful_cdb. Qed.
+Print Assumptions C10_scope_truthful_cdb.
+
+Theorem C10_fallback_to_resolver_cdb : forall sep f db fm8 fmM,
+  wf_kinds f = true -> wf_addrs f = true -> (forall m, wf_subnets (nets_of f m)) -> cdb_db f = Some db ->
+  forall ev q r mo8 moM rip,
+  fm8 = Ok mo8 -> fmM = Ok moM -> q_rip q = Some rip -> rip < two128 ->
+  badvers q = false -> no_backend_error ev ->
+  (forall e, query_ecs q = Some e -> wf_ecs e) ->
+  serve fm8 fmM (cdb_get_location sep db) ev q = Reply r ->
+  r_loc r = match query_ecs q with
+            | Some e => if id_eqb (ecs_decides (nets_of f) (map_of mo8) e) (0, 0)
+                        then resolver_decides (nets_of f) (map_of moM) rip
+                        else ecs_decides (nets_of f) (map_of mo8) e
+            | None => resolver_decides (nets_of f) (map_of moM) rip
+            end.
+Proof. exact fallback_to_resolver_cdb. Qed.
+Print Assumptions C10_fallback_to_resolver_cdb.
+
+Theorem C10_always_replies_cdb : forall sep f db fm8 fmM,
+  wf_kinds f = true -> wf_addrs f = true -> (forall m, wf_subnets (nets_of f m)) -> cdb_db f = Some db ->
+  forall ev q mo8 moM rip,
+  fm8 = Ok mo8 -> fmM = Ok moM -> q_rip q = Some rip -> rip < two128 ->
+  (forall e, query_ecs q = Some e -> wf_ecs e) ->
+  exists r, serve fm8 fmM (cdb_get_location sep db) ev q = Reply r.
+Proof. exact always_replies_cdb. Qed.
+Print Assumptions C10_always_replies_cdb.
+
+(* ---- RocksDB backend (both key layouts use the same range points): [gl] is
+   rdb_get_location (C03_rdb_driver_is_lpm).  The hypothesis that stays is the
+   database-contents hypothesis of that theorem, for every map:
+     rdb_holds_points sort nets db  =  for every map m the range-point records of m in
+     db are exactly the records of the points Rearrange returns for nets m
+   (spelled out in C03_rdb_holds_points_unfold; derived from the compiled store in
+   C03_rdb_db_from_compile and for C03's database model in C03_rdb_model_db_holds_points). *)
+Theorem C10_scope_truthful_rdb : forall sort nets db fm8 fmM,
+  sort_spec sort -> (forall m, wf_subnets (nets m)) -> rdb_holds_points sort nets db ->
+  forall ev q r e mo8 moM rip,
+  fm8 = Ok mo8 -> fmM = Ok moM -> q_rip q = Some rip -> rip < two128 ->
+  badvers q = false -> no_backend_error ev ->
+  query_ecs q = Some e -> wf_ecs e ->
+  serve fm8 fmM (rdb_get_location db) ev q = Reply r ->
+  exists e', reply_ecs r = Some e' /\
+    e_scope e' = expected_scope nets (map_of mo8) e /\
+    (e_fam e = 1 -> e_scope e' <= 32) /\ (e_fam e = 2 -> e_scope e' <= 128).
+Proof. exact scope_truthful_rdb. Qed.
+Print Assumptions C10_scope_truthful_rdb.
+
+Theorem C10_fallback_to_resolver_rdb : forall sort nets db fm8 fmM,
+  sort_spec sort -> (forall m, wf_subnets (nets m)) -> rdb_holds_points sort nets db ->
+  forall ev q r mo8 moM rip,
+  fm8 = Ok mo8 -> fmM = Ok moM -> q_rip q = Some rip -> rip < two128 ->
+  badvers q = false -> no_backend_error ev ->
+  (forall e, query_ecs q = Some e -> wf_ecs e) ->
+  serve fm8 fmM (rdb_get_location db) ev q = Reply r ->
+  r_loc r = match query_ecs q with
+            | Some e => if id_eqb (ecs_decides nets (map_of mo8) e) (0, 0)
+                        then resolver_decides nets (map_of moM) rip
+                        else ecs_decides nets (map_of mo8) e
+            | None => resolver_decides nets (map_of moM) rip
+            end.
+Proof. exact fallback_to_resolver_rdb. Qed.
+Print Assumptions C10_fallback_to_resolver_rdb.
+
+Theorem C10_always_replies_rdb : forall sort nets db fm8 fmM,
+  sort_spec sort -> (forall m, wf_subnets (nets m)) -> rdb_holds_points sort nets db ->
+  forall ev q mo8 moM rip,
+  fm8 = Ok mo8 -> fmM = Ok moM -> q_rip q = Some rip -> rip < two128 ->
+  (forall e, query_ecs q = Some e -> wf_ecs e) ->
+  exists r, serve fm8 fmM (rdb_get_location db) ev q = Reply r.
+Proof. exact always_replies_rdb. Qed.
+Print Assumptions C10_always_replies_rdb.
+
+(* ---- RocksDB, database-contents hypothesis discharged (1): the database model of C03
+   (rdb_db: features, map records, range points of every map, equal keys merged) of a
+   data file - no hypothesis on the database *)
+Theorem C10_scope_truthful_rdb_file : forall sort v2 f db fm8 fmM, sort_spec sort ->
+  wf_kinds f = true -> (forall m, wf_subnets (nets_of f m)) -> rdb_db sort v2 f = Ok db ->
+  forall ev q r e mo8 moM rip,
+  fm8 = Ok mo8 -> fmM = Ok moM -> q_rip q = Some rip -> rip < two128 ->
+  badvers q = false -> no_backend_error ev ->
+  query_ecs q = Some e -> wf_ecs e ->
+  serve fm8 fmM (rdb_get_location db) ev q = Reply r ->
+  exists e', reply_ecs r = Some e' /\
+    e_scope e' = expected_scope (nets_of f) (map_of mo8) e /\
+    (e_fam e = 1 -> e_scope e' <= 32) /\ (e_fam e = 2 -> e_scope e' <= 128).
+Proof. exact scope_truthful_rdb_file. Qed.
+Print Assumptions C10_scope_truthful_rdb_file.
+
+Theorem C10_fallback_to_resolver_rdb_file : forall sort v2 f db fm8 fmM, sort_spec sort ->
+  wf_kinds f = true -> (forall m, wf_subnets (nets_of f m)) -> rdb_db sort v2 f = Ok db ->
+  forall ev q r mo8 moM rip,
+  fm8 = Ok mo8 -> fmM = Ok moM -> q_rip q = Some rip -> rip < two128 ->
+  badvers q = false -> no_backend_error ev ->
+  (forall e, query_ecs q = Some e -> wf_ecs e) ->
+  serve fm8 fmM (rdb_get_location db) ev q = Reply r ->
+  r_loc r = match query_ecs q with
+            | Some e => if id_eqb (ecs_decides (nets_of f) (map_of mo8) e) (0, 0)
+                        then resolver_decides (nets_of f) (map_of moM) rip
+                        else ecs_decides (nets_of f) (map_of mo8) e
+            | None => resolver_decides (nets_of f) (map_of moM) rip
+            end.
+Proof. exact fallback_to_resolver_rdb_file. Qed.
+Print Assumptions C10_fallback_to_resolver_rdb_file.
+
+(* ---- RocksDB, database-contents hypothesis discharged (2): any compilation in the
+   sense of C07 (builder or batches, any setting, any schedule) of a file f under a
+   codec whose accumulator emits the range points of the maps [ids] and whose other
+   records are not keyed like range points ([rp_codec], Proofs/LinkRdbDb.v; see
+   C03_rdb_db_from_compile); [dbl] lists the store (what an iterator sees) *)
+Theorem C10_scope_truthful_rdb_compiled :
+  forall line conv accum feature sort nets ids,
+  sort_spec sort -> (forall m, wf_subnets (nets m)) -> NoDup ids -> (forall m, ~ In m ids -> nets m = []) ->
+  forall f (db : store) dbl fm8 fmM, rp_codec line conv accum feature sort nets ids f ->
+  feature <> [] -> kvs_ok (records line conv accum feature f) ->
+  rdb_compilation line conv accum feature f db -> lists_store dbl db ->
+  forall ev q r e mo8 moM rip,
+  fm8 = Ok mo8 -> fmM = Ok moM -> q_rip q = Some rip -> rip < two128 ->
+  badvers q = false -> no_backend_error ev ->
+  query_ecs q = Some e -> wf_ecs e ->
+  serve fm8 fmM (rdb_get_location dbl) ev q = Reply r ->
+  exists e', reply_ecs r = Some e' /\
+    e_scope e' = expected_scope nets (map_of mo8) e /\
+    (e_fam e = 1 -> e_scope e' <= 32) /\ (e_fam e = 2 -> e_scope e' <= 128).
+Proof. exact scope_truthful_rdb_compiled. Qed.
+Print Assumptions C10_scope_truthful_rdb_compiled.
+
+Theorem C10_fallback_to_resolver_rdb_compiled :
+  forall line conv accum feature sort nets ids,
+  sort_spec sort -> (forall m, wf_subnets (nets m)) -> NoDup ids -> (forall m, ~ In m ids -> nets m = []) ->
+  forall f (db : store) dbl fm8 fmM, rp_codec line conv accum feature sort nets ids f ->
+  feature <> [] -> kvs_ok (records line conv accum feature f) ->
+  rdb_compilation line conv accum feature f db -> lists_store dbl db ->
+  forall ev q r mo8 moM rip,
+  fm8 = Ok mo8 -> fmM = Ok moM -> q_rip q = Some rip -> rip < two128 ->
+  badvers q = false -> no_backend_error ev ->
+  (forall e, query_ecs q = Some e -> wf_ecs e) ->
+  serve fm8 fmM (rdb_get_location dbl) ev q = Reply r ->
+  r_loc r = match query_ecs q with
+            | Some e => if id_eqb (ecs_decides nets (map_of mo8) e) (0, 0)
+                        then resolver_decides nets (map_of moM) rip
+                        else ecs_decides nets (map_of mo8) e
+            | None => resolver_decides nets (map_of moM) rip
+            end.
+Proof. exact fallback_to_resolver_rdb_compiled. Qed.
+Print Assumptions C10_fallback_to_resolver_rdb_compiled.
